@@ -6,7 +6,8 @@ CONSTANTS
   ReadLens = {10}
   FlankIds = {2}
   FlankPairs = "diag"
-  MMBases = {"A", "T"}
+  MMBases = {"T", "N"}
+  BoundaryPs = {0, 1, 2}
   XBases = {"A"}
   Protos = {"nla", "chic"}
   Variant = "design"
